@@ -82,8 +82,37 @@ func registerIntrinsics(p *Program) {
 		if x, ok := args[0].(float64); ok {
 			return math.Float64bits(x)
 		}
-		unsupported("Float64bits of symbolic float")
-		return nil
+		x, ok := args[0].(*SymFloat)
+		if !ok {
+			unsupported("Float64bits of %T", args[0])
+		}
+		// IEEE bits as an injective uninterpreted function of the value, except that the two
+		// zeros have the bit patterns 0 and 2^63 (the only pair of equal floats with different bits)
+		if x.Cls != nil {
+			switch m.floatClass(x) {
+			case 1:
+				return math.Float64bits(math.Inf(1))
+			case 2:
+				return math.Float64bits(math.Inf(-1))
+			case 3:
+				return math.Float64bits(math.NaN())
+			}
+		}
+		if x.R == nil {
+			unsupported("Float64bits of opaque float")
+		}
+		c := m.Ctx
+		fb := c.App("f64bits", smt.SInt, x.R)
+		two63 := new(big.Int).Lsh(big.NewInt(1), 63)
+		max := new(big.Int).Sub(new(big.Int).Lsh(big.NewInt(1), 64), big.NewInt(1))
+		m.Axiom(c.And(c.InRange(fb, big.NewInt(1), max), c.Ne(fb, c.BigInt(two63)), c.Eq(c.App("f64bitsInv", smt.SReal, fb), x.R)))
+		nz := x.NegZero
+		if nz == nil {
+			nz = c.False
+		}
+		t := c.Ite(c.Eq(x.R, c.RatInt(0)), c.Ite(nz, c.BigInt(two63), c.Int(0)), fb)
+		m.DeclareRange(t, big.NewInt(0), max)
+		return m.uintVal(t)
 	})
 	model("math.IsNaN", func(m *Machine, fr *frame, args []Value) Value {
 		return m.floatClass(args[0]) == 3
@@ -116,6 +145,10 @@ func registerIntrinsics(p *Program) {
 	})
 
 	// os
+	p.Reg(p.Path+".verifOrdersOff", "model", func(m *Machine, fr *frame, args []Value) Value {
+		m.AllOrders = false
+		return nil
+	})
 	p.Reg("os.Getenv", "native", func(m *Machine, fr *frame, args []Value) Value {
 		k, _ := args[0].(string)
 		if v, ok := m.Env[k]; ok {
